@@ -140,6 +140,10 @@ fn judge(rep: &Reporter, v: &str, evals: &AtomicU64, nontrivial: &AtomicU64) {
 
 pub fn run(tier: Tier) -> i32 {
     let rep = Reporter::new("C09", tier);
+    // the bounds that used to be the thorough tier's are cheap enough for every run
+    let deep = tier == Tier::Thorough;
+    let tier = Tier::Thorough;
+    let _ = deep;
     let evals = AtomicU64::new(0);
     let nontrivial = AtomicU64::new(0);
     // all strings of length <= 2 over all 128 ASCII code points
@@ -157,7 +161,7 @@ pub fn run(tier: Tier) -> i32 {
     // all strings of length 3..=L over the metacharacter alphabet
     let m: Vec<&str> = vec!["\0", " ", "#", "\"", "+", ",", ";", "<", "=", ">", "\\", "*", "(", ")", "/", "a", "Z", "0", "\x7f", "é", "€", "𐍈"];
     let k = m.len() as u64;
-    let maxlen = tier.pick(4usize, 5usize);
+    let maxlen = if deep { 6usize } else { 5usize };
     let mut total = 0u64;
     for len in 3..=maxlen {
         let n = k.pow(len as u32);
